@@ -151,7 +151,7 @@ theorem stdGuard_dropW (s : St α) : stdGuard (dropW s) = stdGuard s := by
 
 /-- the fuelled loop commutes with the deletion, given that the body does on states satisfying a round invariant -/
 theorem loopN_dropW (P : St α → Prop) (guard : St α → Bool) (body : St α → St α × Flow)
-    (hP : ∀ s, P s → guard s = true → P (body s).1)
+    (hP : ∀ s, P s → guard s = true → (body s).2 = .cont → P (body s).1)
     (hg : ∀ s, guard (dropW s) = guard s)
     (hb : ∀ s, P s → body (dropW s) = (dropW (body s).1, (body s).2)) :
     ∀ (fuel : Nat) (s : St α), P s → loopN guard body fuel (dropW s) = (loopN guard body fuel s).map dropW := by
@@ -173,7 +173,7 @@ theorem loopN_dropW (P : St α → Prop) (guard : St α → Bool) (body : St α 
           have hP' := hP s hPs hgs
           rw [hbody] at hP'
           cases fl with
-          | cont => simp only; exact ih s' hP'
+          | cont => simp only; exact ih s' (hP' rfl)
           | brk => rfl
       · simp [hgs]
 
@@ -259,7 +259,7 @@ theorem wigm_dropW (hA : LawfulArith A) (hr : EqRefl A) (u : α) (hu : 0 ≤ u) 
       rw [← dropW_wigmInit] at hl'
       have h1 := loopN_fuel_mono stdGuard (wigmBody A o) _ _ _ hl' (2 * s0.cands.length + 3) (by omega)
       have h2 := loopN_dropW (WigmAll A u) stdGuard (wigmBody A o)
-        (fun s hs hg => (wigmBody_spec_all A hA hr u hu hlow o hex hs hg).1)
+        (fun s hs hg _ => (wigmBody_spec_all A hA hr u hu hlow o hex hs hg).1)
         (stdGuard_dropW) (fun s hs => dropW_wigmBody A o hs.1.1.1.wf) (2 * s0.cands.length + 3) _ hinit
       rw [hl, h1] at h2
       have h4 : s4' = dropW s4 := by simpa using h2
